@@ -118,8 +118,9 @@ def failure_capable(prog):
     def direct(f):
         for n in walk_no_nested(f.node):
             if isinstance(n, ast.Raise) and n.exc is not None:
-                nm = n.exc.func if isinstance(n.exc, ast.Call) else n.exc
-                nm = nm.id if isinstance(nm, ast.Name) else (nm.attr if isinstance(nm, ast.Attribute) else "?")
+                from .keyeval import raised_class_name
+
+                nm = raised_class_name(n.exc, mod)  # (an exception built by a module-level helper: the class it builds)
                 if nm != "MemcacheIllegalInputError":
                     return True
             if isinstance(n, ast.Call):
